@@ -30,6 +30,10 @@ type Registry struct {
 	// are not ignored. Otherwise if it's set to true, AddImport ignores imports
 	// for the package in which the file already resides.
 	inPackage bool
+	// dstPkgName is the package name the output file declares, when known. A
+	// mock may be written into a package other than the source package; the
+	// types of that package are then local to the file as well.
+	dstPkgName string
 }
 
 // New loads the source package info and returns a new instance of
@@ -42,6 +46,13 @@ func NewRegistry(srcPkg *packages.Package, dstPkgPath string, inPackage bool) (*
 		importQualifiers: make(map[string]*Package),
 		inPackage:        inPackage,
 	}, nil
+}
+
+// SetDstPkgName records the package name the output file declares. Imports of
+// the package found at the destination path are skipped when it has this name:
+// the file is then part of that package and must not import it.
+func (r *Registry) SetDstPkgName(name string) {
+	r.dstPkgName = name
 }
 
 func (r Registry) SrcPkg() *packages.Package {
@@ -117,7 +128,7 @@ func (r *Registry) addImport(ctx context.Context, pkg TypesPackage) *Package {
 		Str("dst-pkg-path", r.dstPkgPath).
 		Logger()
 	log.Debug().Msg("adding import")
-	if path == r.dstPkgPath && r.inPackage {
+	if path == r.dstPkgPath && (r.inPackage || (r.dstPkgName != "" && pkg.Name() == r.dstPkgName)) {
 		log.Debug().Msg("path equals dst-pkg-path, not adding import")
 		return nil
 	} else {
